@@ -81,17 +81,20 @@ _reg("C07", "xsim.table.props", "C07", "exploration", {"quick": 64000, "thorough
      ("pure",), COMPONENTS_TABLE,
      "one case = 1-3 seeded tables (0..40 rows, index column over a 3-5 name alphabet with repetition) + a history of lookups "
      "(t[col,row], rows.get_index, t // row, get_index_unique) interleaved with mutations (cell by position/name/name::k/tuple, whole "
-     "column item/attr style, new/deleted columns, index column replaced via pop+assign), cache warm or cold, optional torn array "
-     "writes; distinct = distinct case digest; non-trivial = the index column was mutated at least once")
+     "column item/attr style, cells through slices / position lists / name spans, positions from the end, new/deleted columns, "
+     "index column replaced via pop+assign), cache warm or cold, optional torn array writes, 15 % fixed-width string index columns, "
+     "names with case variants / regex metacharacters / separator characters; distinct = distinct case digest; non-trivial = the index column was mutated at least once")
 _reg("C08", "xsim.table.props", "C08", "exploration", {"quick": 64000, "thorough": 3000000}, {"quick": 1000, "thorough": 4000},
      ("pure",), COMPONENTS_TABLE,
      "one case = 1-3 seeded tables + a history of rows[...] / rows.indices[...] / rows.mask[...] with every selector form (position, "
      "lists, masks, regex with ::count and shifts, name spans, value ranges open and closed), pairs for the composition law, on "
-     "tables that are also mutated and derived; each worker interpreter runs under its own PYTHONHASHSEED; distinct = distinct "
+     "tables that are also mutated and derived, non-capturing/flag/named groups among the patterns, throw-away case-sensitive tables "
+     "using the same pattern texts in the same interpreter; each worker interpreter runs under its own PYTHONHASHSEED; distinct = distinct "
      "case digest; non-trivial = at least one selection was compared with the naive selector")
 _reg("C14", "xsim.table.props", "C14", "exploration", {"quick": 48000, "thorough": 3000000}, {"quick": 750, "thorough": 4000},
      ("pure",), COMPONENTS_TABLE,
-     "one case = 1-3 seeded tables + a history of derivations (rows, cols incl. expression columns, +, *, concatenate, _copy, _t) "
+     "one case = 1-3 seeded tables + a history of derivations (rows, cols incl. expression columns, +, *, concatenate, _copy, _t, "
+     "_select), calls of the checked constructor with consistent and inconsistent arguments, non-scalar extra entries, "
      "and column/cell assignments over a population of up to 7 live tables that may share arrays; after every op every live table "
      "is checked; distinct = distinct case digest; non-trivial = at least one derivation produced a table")
 _reg("C09", "xsim.optimizer.props", "C09", "fault_enumeration", {"quick": 2560, "thorough": 100000}, {"quick": 40, "thorough": 150},
